@@ -10,7 +10,9 @@
 //!      unkeyed hashes, including (a) a registered shard file of the earlier-searched key collection deleted from disk and
 //!      (b) a truncated-prefix collision in the unkeyed collection;
 //!   D. expiry: an expired shard is not loaded and is deleted only after the grace period.
-//! Deterministic; seed from VERIF_SEED (default 0); C10_ONLY=A|B|C|D selects sections.
+//!   E. (opt-in, C10_ONLY=E, not part of the default run) a probe outside the generated input space: a file segment with
+//!      non-zero cas_flags makes export_as_keyed_shard(include_file_info=false) fail; the code base only ever writes 0 there.
+//! Deterministic; seed from VERIF_SEED (default 0); C10_ONLY=A|B|C|D selects sections, C10_SKIP=Ca|Cb skips scenario (a)/(b) of C.
 //! Prints `WITNESS ...` and exits 1 on the first violation, `no violation found` and exits 0 otherwise.
 use std::collections::{BTreeMap, BTreeSet};
 use std::io::Cursor;
@@ -144,7 +146,10 @@ impl Rng {
     }
 }
 
+/// description of the current inputs, appended to a WITNESS line after the finding itself
+static DETAILS: std::sync::Mutex<String> = std::sync::Mutex::new(String::new());
 fn witness(msg: String) -> ! {
+    let msg = format!("{msg}{}", DETAILS.lock().map(|d| d.clone()).unwrap_or_default());
     let one_line: String = msg.chars().map(|c| if c == '\n' { ' ' } else { c }).collect();
     println!("WITNESS {one_line}");
     std::process::exit(1);
@@ -156,7 +161,7 @@ fn must<T, E: std::fmt::Debug>(what: &str, f: impl FnOnce() -> Result<T, E>) -> 
         Ok(Err(e)) => witness(format!("{what}: returned error {e:?}")),
         Err(p) => {
             let s = p.downcast_ref::<String>().cloned().or(p.downcast_ref::<&str>().map(|s| s.to_string())).unwrap_or_default();
-            witness(format!("{what}: panicked: {s}"))
+            witness(format!("{what}: panicked: {}", s.chars().take(300).collect::<String>()))
         },
     }
 }
@@ -645,11 +650,12 @@ fn negatives_for(p: &Pool) -> Vec<H> {
 // A. set operations
 // ---------------------------------------------------------------------------------------------------------------------
 fn check_set_ops(name: &str, a: &Model, b: &Model, neg: &[H], with_files: bool) {
-    let ctx = |op: &str| format!("[A {name}] {op} with first = {} and second = {}", a.describe(), b.describe());
+    let ctx = |op: &str| format!("[A {name}] {op}(first, second)");
+    *DETAILS.lock().unwrap() = format!(" | inputs: first = {} ; second = {}", a.describe(), b.describe());
     let (ba, bb) = (to_bytes(a), to_bytes(b));
     for (which, bytes, m) in [("first", &ba, a), ("second", &bb, b)] {
         if let Err(s) = check_shard_bytes(bytes, m, PLAIN, neg) {
-            witness(format!("[A {name}] the {which} input shard {} written by MDBShardInfo::serialize_from is already wrong: {s}", m.describe()));
+            witness(format!("[A {name}] the {which} input shard written by MDBShardInfo::serialize_from is already wrong: {s}"));
         }
     }
     let load = |b: &Vec<u8>| must("MDBShardInfo::load_from_reader", || MDBShardInfo::load_from_reader(&mut Cursor::new(b)));
@@ -749,6 +755,7 @@ fn section_a(seed: u64) {
     // sequences: fold a union over several shards, feeding outputs back in
     for i in 0..6 {
         let shards: Vec<Model> = (0..4).map(|_| gen_shard(&mut rng, &pool, 3, 3)).collect();
+        *DETAILS.lock().unwrap() = format!(" | chain of shards: {}", shards.iter().map(|s| s.describe()).collect::<Vec<_>>().join(" ; "));
         let mut acc_m = shards[0].clone();
         let mut acc_b = to_bytes(&acc_m);
         for s in &shards[1..] {
@@ -766,6 +773,608 @@ fn section_a(seed: u64) {
             acc_b = out;
         }
     }
+    DETAILS.lock().unwrap().clear();
 }
 
-// SECTIONS
+// ---------------------------------------------------------------------------------------------------------------------
+// B. consolidation
+// ---------------------------------------------------------------------------------------------------------------------
+/// a shard written once into a staging directory (the library caches path -> mtime, so test directories get fresh copies)
+struct Staged {
+    model: Model,
+    path: PathBuf,
+    size: u64,
+    /// false when the library's own (debug-build, order-sensitive) self-check rejects this shard only because two chunks share
+    /// a truncated hash and the unstable sort ordered the tie differently; directories with such a shard are not consolidated
+    /// in debug builds, where every load re-runs that self-check and would panic
+    self_check_ok: bool,
+}
+fn has_ties(m: &Model) -> bool {
+    let p: Vec<u64> = m.xorbs.values().flat_map(|x| x.chunks.iter().map(|c| c.0[0])).collect();
+    p.iter().collect::<BTreeSet<_>>().len() != p.len()
+}
+fn stage(dir: &Path, m: &Model) -> Staged {
+    let mut self_check_ok = true;
+    let path = if has_ties(m) {
+        let bytes = to_bytes(m);
+        let p = dir.join(shard_file_name(&compute_data_hash(&bytes)));
+        infra("write", std::fs::write(&p, &bytes));
+        if cfg!(debug_assertions) {
+            self_check_ok = catch_unwind(AssertUnwindSafe(|| MDBShardFile::load_from_file(&p).map(|s| s.verify_shard_integrity()).is_ok())).unwrap_or(false);
+        }
+        p
+    } else {
+        let mem = to_mem(m);
+        must("MDBInMemoryShard::write_to_directory", || mem.write_to_directory(dir))
+    };
+    let size = infra("metadata", std::fs::metadata(&path)).len();
+    Staged { model: m.clone(), path, size, self_check_ok }
+}
+fn mdb_files(dir: &Path) -> BTreeSet<String> {
+    infra("read_dir", std::fs::read_dir(dir)).map(|e| e.unwrap().file_name().to_string_lossy().to_string()).filter(|n| n.ends_with(".mdb")).collect()
+}
+const T0: u64 = 1_700_000_000;
+/// copies the staged shards into a fresh directory; `order[i]` is the mtime rank of shard i (equal ranks = equal mtimes)
+fn populate(shards: &[&Staged], order: &[usize]) -> tempfile::TempDir {
+    let dir = infra("tempdir", tempfile::tempdir());
+    for (s, rank) in shards.iter().zip(order) {
+        let dst = dir.path().join(s.path.file_name().unwrap());
+        infra("copy", std::fs::copy(&s.path, &dst));
+        let f = infra("open", std::fs::OpenOptions::new().write(true).open(&dst));
+        infra("set_modified", f.set_modified(SystemTime::UNIX_EPOCH + Duration::from_secs(T0 + 100 * *rank as u64)));
+    }
+    dir
+}
+/// runs the real consolidation and checks the C10 consolidation clause; returns the returned shard names for further checks
+fn run_consolidation(ctx: &str, shards: &[&Staged], order: &[usize], t: u64, neg: &[H]) -> Vec<String> {
+    if shards.iter().any(|s| !s.self_check_ok) {
+        return Vec::new();
+    }
+    let dir = populate(shards, order);
+    let before = mdb_files(dir.path());
+    let ctx = format!(
+        "[B {ctx}] consolidate_shards_in_directory(dir, target_max_size={t}) on shards {} (name:size:mtime-rank)",
+        shards.iter().zip(order).map(|(s, r)| format!("{}:{}:{}", &s.path.file_name().unwrap().to_string_lossy()[..8], s.size, r)).collect::<Vec<_>>().join(", ")
+    );
+    let ret: Vec<Arc<MDBShardFile>> = must(&ctx, || consolidate_shards_in_directory(dir.path(), t));
+    let want = shards.iter().fold(Model::default(), |acc, s| m_union(&acc, &s.model));
+    let mut observed = Model::default();
+    let mut names = Vec::new();
+    for sf in &ret {
+        let name = sf.path.file_name().map(|n| n.to_string_lossy().to_string()).unwrap_or_default();
+        if !sf.path.exists() {
+            witness(format!("{ctx}: returned shard {name} does not exist on disk (returned {} shards; directory now holds {:?})", ret.len(), mdb_files(dir.path()).iter().map(|n| n[..8].to_string()).collect::<Vec<_>>()));
+        }
+        if sf.path.parent().map(|p| p != std::path::absolute(dir.path()).unwrap()).unwrap_or(true) {
+            witness(format!("{ctx}: returned shard {:?} is not in the session directory", sf.path));
+        }
+        let bytes = infra("read", std::fs::read(&sf.path));
+        let h = compute_data_hash(&bytes);
+        if parse_shard_filename(&sf.path) != Some(h) || sf.shard_hash != h || name != shard_file_name(&h) {
+            witness(format!("{ctx}: returned shard file {name} / shard_hash {} does not match its content hash {}", sf.shard_hash.hex(), h.hex()));
+        }
+        // what this returned shard holds, read record by record
+        let inf = must(&ctx, || MDBShardInfo::load_from_reader(&mut Cursor::new(&bytes)));
+        if inf != sf.shard {
+            witness(format!("{ctx}: returned MDBShardFile {name} carries header/footer different from the file content"));
+        }
+        let mut m = Model::default();
+        for fi in must(&ctx, || inf.read_all_file_info_sections(&mut Cursor::new(&bytes))) {
+            match file_rec_of(&fi) {
+                Ok((h, f)) => { m.files.insert(h, f); },
+                Err(e) => witness(format!("{ctx}: returned shard {name}: {e}")),
+            }
+        }
+        for ci in must(&ctx, || inf.read_all_cas_blocks_full(&mut Cursor::new(&bytes))) {
+            match xorb_rec_of(&ci, &ZERO, &BTreeMap::new()) {
+                Ok((h, x)) => { m.xorbs.insert(h, x); },
+                Err(e) => witness(format!("{ctx}: returned shard {name}: {e}")),
+            }
+        }
+        // ... and it is a well-formed shard for exactly these records (lookup tables, totals, queries)
+        if let Err(e) = check_shard_bytes(&bytes, &m, PLAIN, neg) {
+            witness(format!("{ctx}: returned shard {name} is not a consistent shard: {e}"));
+        }
+        // the library's own self-check compares the chunk lookup table order-sensitively, so it is only meaningful when no two
+        // chunks share a truncated hash (ties are ordered by an unstable sort)
+        let prefixes: Vec<u64> = m.xorbs.values().flat_map(|x| x.chunks.iter().map(|c| c.0[0])).collect();
+        let no_ties = prefixes.iter().collect::<BTreeSet<_>>().len() == prefixes.len();
+        if no_ties && catch_unwind(AssertUnwindSafe(|| sf.verify_shard_integrity())).is_err() {
+            witness(format!("{ctx}: verify_shard_integrity panics on returned shard {name}"));
+        }
+        observed = m_union(&observed, &m);
+        names.push(name);
+    }
+    if observed != want {
+        for (h, f) in &want.files {
+            match observed.files.get(h) {
+                None => witness(format!("{ctx}: file record {} is no longer retrievable from the returned shards", hx(h))),
+                Some(o) if o != f => witness(format!("{ctx}: file record {} lost information (verification {}->{}, metadata_ext {}->{})", hx(h), f.verif.is_some(), o.verif.is_some(), f.sha.is_some(), o.sha.is_some())),
+                _ => {},
+            }
+        }
+        for h in want.xorbs.keys() {
+            if observed.xorbs.get(h) != want.xorbs.get(h) {
+                witness(format!("{ctx}: xorb record {} is no longer retrievable (or changed) in the returned shards", hx(h)));
+            }
+        }
+        witness(format!("{ctx}: the returned shards hold records that no input shard had: {} vs expected {}", observed.describe(), want.describe()));
+    }
+    // deleted inputs must be redundant; nothing else may have been touched
+    let after = mdb_files(dir.path());
+    for s in shards {
+        let name = s.path.file_name().unwrap().to_string_lossy().to_string();
+        if !after.contains(&name) && !m_covered(&s.model, &observed) {
+            witness(format!("{ctx}: input shard {name} was deleted although its records are not all present in a returned shard"));
+        }
+    }
+    for n in &after {
+        if !before.contains(n) && !names.contains(n) {
+            witness(format!("{ctx}: new shard file {n} was created but not returned"));
+        }
+    }
+    // every record is also reachable through the per-shard query API of the returned handles
+    for (h, f) in &want.files {
+        let mut acc: Option<FileRec> = None;
+        for sf in &ret {
+            if let Some(fi) = must(&ctx, || sf.get_file_reconstruction_info(&mh(h))) {
+                match file_rec_of(&fi) {
+                    Ok((_, g)) => acc = Some(match acc { Some(a) => richer(&a, &g), None => g }),
+                    Err(e) => witness(format!("{ctx}: {e}")),
+                }
+            }
+        }
+        if acc.as_ref() != Some(f) {
+            witness(format!("{ctx}: get_file_reconstruction_info({}) over the returned shards gives {:?}, expected the full record", hx(h), acc.map(|a| (a.segs.len(), a.verif.is_some(), a.sha.is_some()))));
+        }
+    }
+    for x in want.xorbs.values() {
+        for (j, c) in x.chunks.iter().enumerate().step_by(3) {
+            let q: Vec<H> = x.chunks[j..(j + 2).min(x.chunks.len())].iter().map(|c| c.0).collect();
+            let qm: Vec<MerkleHash> = q.iter().map(mh).collect();
+            let mut hit = false;
+            for sf in &ret {
+                let ans = must(&ctx, || sf.chunk_hash_dedup_query(&qm));
+                if ans.is_some() {
+                    hit = true;
+                    if let Err(e) = validate_answer(&want, &q, &ans) {
+                        witness(format!("{ctx}: dedup query on a returned shard: {e}"));
+                    }
+                }
+            }
+            if !hit {
+                witness(format!("{ctx}: chunk {} is in no returned shard's dedup index", hx(&c.0)));
+            }
+        }
+    }
+    names
+}
+
+fn perms4() -> Vec<[usize; 4]> {
+    let mut v = Vec::new();
+    for a in 0..4 {
+        for b in 0..4 {
+            for c in 0..4 {
+                for d in 0..4 {
+                    if [a, b, c, d].iter().collect::<BTreeSet<_>>().len() == 4 {
+                        v.push([a, b, c, d]);
+                    }
+                }
+            }
+        }
+    }
+    v
+}
+
+fn section_b(seed: u64) {
+    let mut rng = Rng(seed.wrapping_mul(0x1234_5678_9ABC_DEF1) ^ 0xB);
+    let staging = infra("tempdir", tempfile::tempdir());
+    // ---- (1) ordinary directories
+    for round in 0..4 {
+        // pools with duplicate / prefix-colliding chunk hashes are kept at <= 20 chunks: debug builds of the library re-verify
+        // every loaded shard with an order-sensitive comparison that trips over ties once the unstable sort reorders them
+        let pool = if round % 2 == 0 { gen_pool(&mut rng, 12, 10, true) } else { gen_pool(&mut rng, 12, 3, false) };
+        let neg = negatives_for(&pool);
+        let k = 3 + rng.below(5);
+        let mut models: Vec<Model> = (0..k).map(|_| { let (f, x) = (rng.below(5), rng.below(5)); gen_shard(&mut rng, &pool, f, x) }).collect();
+        if round == 1 {
+            models.push(Model::default()); // an empty shard
+            let sub = Model { files: models[0].files.iter().take(1).map(|(h, f)| (*h, f.clone())).collect(), xorbs: models[0].xorbs.iter().take(1).map(|(h, x)| (*h, x.clone())).collect() };
+            models.insert(1, sub); // a shard whose records are all in its neighbour
+        }
+        let mut staged: Vec<Staged> = Vec::new();
+        for m in &models {
+            let s = stage(staging.path(), m);
+            if !staged.iter().any(|o| o.path == s.path) {
+                staged.push(s);
+            }
+        }
+        let refs: Vec<&Staged> = staged.iter().collect();
+        let mut sizes: Vec<u64> = staged.iter().map(|s| s.size).collect();
+        sizes.sort();
+        let total: u64 = sizes.iter().sum();
+        let mut ts = vec![0, 1, sizes[0], sizes[0] + sizes[1], sizes[0] + sizes[1] + 1, total / 2, total, total + 1, 4 * total];
+        ts.dedup();
+        for (i, t) in ts.iter().enumerate() {
+            // mtime order: as generated, reversed, rotated, all equal
+            let n = refs.len();
+            let order: Vec<usize> = match (i + round) % 4 {
+                0 => (0..n).collect(),
+                1 => (0..n).rev().collect(),
+                2 => (0..n).map(|j| (j + 2) % n).collect(),
+                _ => vec![0; n],
+            };
+            run_consolidation(&format!("random directory #{round}"), &refs, &order, *t, &neg);
+        }
+    }
+    // ---- (2) the interrupted re-run: A, B, M = A u B (written by an earlier, interrupted consolidation), later shard D
+    for round in 0..3 {
+        let pool = gen_pool(&mut rng, 12, 10, true);
+        let neg = negatives_for(&pool);
+        let a = stage(staging.path(), &gen_shard(&mut rng, &pool, 4, 4));
+        let mut bm = gen_shard(&mut rng, &pool, 3, 3);
+        if round == 2 {
+            bm = m_diff(&a.model, &bm); // disjoint from A
+        }
+        let b = stage(staging.path(), &bm);
+        if a.path == b.path || a.model.files.is_empty() {
+            continue;
+        }
+        // M is produced by the real code: consolidate a copy of {A, B} with a threshold that merges them
+        let m_name = {
+            let names = run_consolidation("producing M = A u B", &[&a, &b], &[0, 1], a.size + b.size + 1, &neg);
+            if names.len() != 1 {
+                witness(format!("[B interrupted] consolidating two shards of {} + {} bytes under threshold {} returned {} shards", a.size, b.size, a.size + b.size + 1, names.len()));
+            }
+            names[0].clone()
+        };
+        // reproduce M's bytes in the staging directory through the same union, to have a file to copy from
+        let m_model = m_union(&a.model, &b.model);
+        let m_path = {
+            let (ba, bb) = (infra("read", std::fs::read(&a.path)), infra("read", std::fs::read(&b.path)));
+            let (ia, ib) = (must("load", || MDBShardInfo::load_from_reader(&mut Cursor::new(&ba))), must("load", || MDBShardInfo::load_from_reader(&mut Cursor::new(&bb))));
+            let mut out = Vec::new();
+            must("shard_set_union", || shard_set_union(&ia, &mut Cursor::new(&ba), &ib, &mut Cursor::new(&bb), &mut out));
+            let p = staging.path().join(shard_file_name(&compute_data_hash(&out)));
+            infra("write", std::fs::write(&p, &out));
+            p
+        };
+        if m_path.file_name().unwrap().to_string_lossy() != m_name {
+            witness(format!("[B interrupted] the union of the same two shards produced two different shard files ({m_name} vs {:?}): union output is not deterministic", m_path.file_name().unwrap()));
+        }
+        let m = Staged { model: m_model, size: infra("metadata", std::fs::metadata(&m_path)).len(), path: m_path, self_check_ok: true };
+        let d_models = [Model::default(), gen_shard(&mut rng, &pool, 1, 1), gen_shard(&mut rng, &pool, 2, 2), m_diff(&m.model, &gen_shard(&mut rng, &pool, 3, 3))];
+        for dm in d_models.iter() {
+            let d = stage(staging.path(), dm);
+            if [&a.path, &b.path, &m.path].contains(&&d.path) {
+                continue;
+            }
+            let (lo, hi) = (a.size + b.size + 1, a.size + b.size + m.size);
+            let mut ts: Vec<u64> = vec![lo, (lo + hi) / 2, hi, m.size + d.size + 1, hi + d.size + 1];
+            ts.sort();
+            ts.dedup();
+            let shards = [&a, &b, &m, &d];
+            // all 24 mtime orders of the four shards (A,B < M < D is the interrupted-run order)
+            for order in perms4() {
+                for t in &ts {
+                    run_consolidation(&format!("interrupted re-run #{round}: A, B, M = A u B, D"), &shards, &order, *t, &neg);
+                }
+            }
+        }
+    }
+}
+
+// ---------------------------------------------------------------------------------------------------------------------
+// C. keyed re-export, queried through the shard manager
+// ---------------------------------------------------------------------------------------------------------------------
+struct Mgr {
+    rt: tokio::runtime::Runtime,
+}
+impl Mgr {
+    fn open(&self, what: &str, dir: &Path) -> Arc<ShardFileManager> {
+        must(&format!("{what}: ShardFileManager::new_in_session_directory"), || self.rt.block_on(ShardFileManager::new_in_session_directory(dir)))
+    }
+    fn query(&self, what: &str, m: &ShardFileManager, q: &[H]) -> Answer {
+        let qm: Vec<MerkleHash> = q.iter().map(mh).collect();
+        must(&format!("{what}: ShardFileManager::chunk_hash_dedup_query({} hashes starting {})", q.len(), hx(&q[0])), || self.rt.block_on(m.chunk_hash_dedup_query(&qm)))
+    }
+    fn file(&self, what: &str, m: &ShardFileManager, h: &H) -> Option<FileRec> {
+        let r = must(&format!("{what}: ShardFileManager::get_file_reconstruction_info"), || self.rt.block_on(m.get_file_reconstruction_info(&mh(h))));
+        r.map(|(fi, _)| match file_rec_of(&fi) {
+            Ok((g, f)) if g == *h => f,
+            _ => witness(format!("{what}: get_file_reconstruction_info({}) returned a malformed / different file record", hx(h))),
+        })
+    }
+}
+fn flags_of(i: usize) -> (bool, bool, bool) {
+    (i & 1 != 0, i & 2 != 0, i & 4 != 0)
+}
+fn flag_str(i: usize) -> String {
+    let (f, c, k) = flags_of(i);
+    format!("include_file_info={f}, include_cas_lookup_table={c}, include_chunk_lookup_table={k}")
+}
+/// real export of a staged shard; returns the path of the export inside `out_dir`
+fn export(src: &Path, out_dir: &Path, key: &H, flags: usize) -> PathBuf {
+    let (f, c, k) = flags_of(flags);
+    let what = format!("[C] export_as_keyed_shard(key {}, {})", hx(key), flag_str(flags));
+    let sf = must(&what, || MDBShardFile::load_from_file(src));
+    let out = must(&what, || sf.export_as_keyed_shard(out_dir, mh(key), Duration::from_secs(3600), f, c, k));
+    if !out.path.exists() || out.path.parent() != Some(std::path::absolute(out_dir).unwrap().as_path()) {
+        witness(format!("{what}: returned shard {:?} does not exist in the target directory", out.path));
+    }
+    out.path.clone()
+}
+fn fresh_dir_with<P: AsRef<Path>>(files: &[P]) -> tempfile::TempDir {
+    let dir = infra("tempdir", tempfile::tempdir());
+    for (i, p) in files.iter().enumerate() {
+        let p = p.as_ref();
+        let dst = dir.path().join(p.file_name().unwrap());
+        infra("copy", std::fs::copy(p, &dst));
+        let f = infra("open", std::fs::OpenOptions::new().write(true).open(&dst));
+        infra("set_modified", f.set_modified(SystemTime::UNIX_EPOCH + Duration::from_secs(T0 + 100 * i as u64)));
+    }
+    dir
+}
+/// all dedup queries + file lookups through a manager, against the model and (optionally) against another manager's answers
+#[allow(clippy::too_many_arguments)]
+fn check_manager(mg: &Mgr, what: &str, m: &ShardFileManager, model: &Model, files_expected: &BTreeMap<H, FileRec>, files_forbidden: &[H], reference: Option<&ShardFileManager>, neg: &[H]) {
+    let junk = [0x5555_5555_5555_5555u64, 9, 9, 9];
+    let mut qs = queries_for(model, &junk);
+    for h in neg {
+        qs.push(vec![*h]);
+        qs.push(vec![*h, junk]);
+    }
+    for q in &qs {
+        let ans = mg.query(what, m, q);
+        if let Err(e) = validate_answer(model, q, &ans) {
+            witness(format!("{what}: query of {} unkeyed hashes starting with {}: {e}", q.len(), hx(&q[0])));
+        }
+        if let Some(r) = reference {
+            let orig = mg.query(&format!("{what} (manager over the original shards)"), r, q);
+            if orig != ans {
+                witness(format!("{what}: query of {} unkeyed hashes starting with {}: keyed directory answers {:?}, the original answers {:?}", q.len(), hx(&q[0]), ans.map(|a| (a.0, hx(&hh(&a.1.cas_hash)), a.1.chunk_index_start)), orig.map(|a| (a.0, hx(&hh(&a.1.cas_hash)), a.1.chunk_index_start))));
+            }
+        }
+    }
+    for (h, f) in files_expected {
+        let got = mg.file(what, m, h);
+        if got.as_ref() != Some(f) {
+            witness(format!("{what}: file record {} was to be kept but the manager returns {:?}", hx(h), got.map(|g| (g.segs.len(), g.verif.is_some(), g.sha.is_some()))));
+        }
+    }
+    for h in files_forbidden {
+        if !files_expected.contains_key(h) && mg.file(what, m, h).is_some() {
+            witness(format!("{what}: file record {} is retrievable although it was to be dropped / is not stored", hx(h)));
+        }
+    }
+}
+
+fn section_c(seed: u64) {
+    let mut rng = Rng(seed.wrapping_mul(0x0F0F_1357_9BDF_2469) ^ 0xC);
+    let mg = Mgr { rt: infra("tokio runtime", tokio::runtime::Builder::new_current_thread().build()) };
+    let staging = infra("tempdir", tempfile::tempdir());
+    let exports = infra("tempdir", tempfile::tempdir());
+    let pool = gen_pool(&mut rng, 9, 8, true);
+    let neg = negatives_for(&pool);
+    let keys: [H; 3] = [ZERO, rng.hash(), rng.hash()];
+    // S: the shard to export (unique chunk hashes, files in all four flag variants); S2, S3: further disjoint shards
+    let s_model = Model {
+        files: pool.files.iter().take(6).enumerate().map(|(i, (h, f))| (*h, variant(f, i % 4))).collect(),
+        xorbs: pool.xorbs.iter().take(5).cloned().collect(),
+    };
+    let s2_model = Model { files: pool.files.iter().skip(6).map(|(h, f)| (*h, f.clone())).collect(), xorbs: pool.xorbs.iter().skip(5).take(2).cloned().collect() };
+    let s3_model = Model { files: BTreeMap::new(), xorbs: pool.xorbs.iter().skip(7).cloned().collect() };
+    let (s, s2, s3) = (stage(staging.path(), &s_model), stage(staging.path(), &s2_model), stage(staging.path(), &s3_model));
+    let all_files: Vec<H> = pool.files.iter().map(|f| f.0).collect();
+    *DETAILS.lock().unwrap() = format!(" | S = {}", s_model.describe());
+
+    // ---- every key x every flag combination: the exported shard itself, then alone in a manager vs the original alone
+    let orig_dir = fresh_dir_with(&[&s.path]);
+    let orig_mgr = mg.open("[C] original shard", orig_dir.path());
+    check_manager(&mg, "[C] manager over the original shard", &orig_mgr, &s_model, &s_model.files, &neg, None, &neg);
+    let mut exp: BTreeMap<(usize, usize), PathBuf> = BTreeMap::new();
+    for (ki, key) in keys.iter().enumerate() {
+        for fl in 0..8 {
+            let p = export(&s.path, exports.path(), key, fl);
+            let what = format!("[C] shard S re-exported with key {} ({}), {}", hx(key), if ki == 0 { "zero key = unkeyed" } else { "keyed" }, flag_str(fl));
+            let (f, c, k) = flags_of(fl);
+            let bytes = infra("read", std::fs::read(&p));
+            if parse_shard_filename(&p) != Some(compute_data_hash(&bytes)) {
+                witness(format!("{what}: exported file name does not equal its content hash"));
+            }
+            if let Err(e) = check_shard_bytes(&bytes, &s_model, Expect { key: *key, files: f, cas_lookup: c, chunk_lookup: k }, &neg) {
+                witness(format!("{what}: {e}"));
+            }
+            let dir = fresh_dir_with(&[&p]);
+            let m = mg.open(&what, dir.path());
+            let kept: BTreeMap<H, FileRec> = if f { s_model.files.clone() } else { BTreeMap::new() };
+            let dropped: Vec<H> = if f { neg.clone() } else { all_files.clone() };
+            check_manager(&mg, &format!("{what}, alone in a manager directory"), &m, &s_model, &kept, &dropped, Some(&orig_mgr), &neg);
+            exp.insert((ki, fl), p);
+        }
+    }
+    // ---- a directory mixing shards under several keys (S under K1, S2 under K2, S3 unkeyed / under K1) vs the originals
+    let all_model = m_union(&m_union(&s_model, &s2_model), &s3_model);
+    let orig3_dir = fresh_dir_with(&[&s.path, &s2.path, &s3.path]);
+    let orig3 = mg.open("[C] originals", orig3_dir.path());
+    for round in 0..8usize {
+        let (f1, f2, f3) = (round, (round * 3 + 1) % 8, (round * 5 + 2) % 8);
+        let k3 = if round % 2 == 0 { 0 } else { 1 };
+        let p2 = export(&s2.path, exports.path(), &keys[2], f2);
+        let p3 = export(&s3.path, exports.path(), &keys[k3], f3);
+        let files: Vec<&PathBuf> = match round % 3 {
+            0 => vec![&exp[&(1, f1)], &p2, &p3],
+            1 => vec![&p3, &exp[&(1, f1)], &p2],
+            _ => vec![&p2, &p3, &exp[&(1, f1)]],
+        };
+        let dir = fresh_dir_with(&files);
+        let what = format!("[C] mixed directory: S under K1 ({}), S2 under K2 ({}), S3 under {} ({})", flag_str(f1), flag_str(f2), if k3 == 0 { "the zero key" } else { "K1" }, flag_str(f3));
+        let m = mg.open(&what, dir.path());
+        let mut kept = BTreeMap::new();
+        let mut dropped = neg.clone();
+        for (model, fl) in [(&s_model, f1), (&s2_model, f2)] {
+            for (h, f) in &model.files {
+                if flags_of(fl).0 { kept.insert(*h, f.clone()); } else { dropped.push(*h); }
+            }
+        }
+        check_manager(&mg, &what, &m, &all_model, &kept, &dropped, Some(&orig3), &neg);
+    }
+    // ---- (a) the same chunks under two keys; the shard file of one key collection is deleted after registration
+    let skip = std::env::var("C10_SKIP").unwrap_or_default();
+    for (ka, kb) in [(0usize, 2usize), (1, 2), (2, 1), (1, 0)] {
+        if skip.contains("Ca") {
+            break;
+        }
+        for fl in 0..8usize {
+            for a_first in [true, false] {
+                let (fa, fb) = (fl, (fl * 3 + 5) % 8);
+                let (pa, pb) = (&exp[&(ka, fa)], &exp[&(kb, fb)]);
+                let dir = if a_first { fresh_dir_with(&[pa, pb]) } else { fresh_dir_with(&[pb, pa]) };
+                let what = format!(
+                    "[C a] directory with shard S under key #{ka} ({}) and under key #{kb} ({}) (key #0 = unkeyed; mtime order {}); manager created, then the key #{ka} shard FILE deleted from disk",
+                    flag_str(fa), flag_str(fb), if a_first { "first older" } else { "first newer" }
+                );
+                let m = mg.open(&what, dir.path());
+                infra("remove", std::fs::remove_file(dir.path().join(pa.file_name().unwrap())));
+                let kept: BTreeMap<H, FileRec> = if flags_of(fb).0 { s_model.files.clone() } else { BTreeMap::new() };
+                check_manager(&mg, &what, &m, &s_model, &kept, &neg, Some(&orig_mgr), &neg);
+            }
+        }
+    }
+    // ---- (b) truncated-prefix collision: the unkeyed collection holds chunk Z with Z[0] == X[0] for a chunk X of keyed S
+    if !skip.contains("Cb") {
+        let mut u_model = Model::default();
+        let mut zs = Vec::new();
+        for (i, x) in s_model.xorbs.values().enumerate() {
+            // collide with the first, a middle and the last chunk of every xorb of S
+            let mut chunks = Vec::new();
+            for j in [0, x.chunks.len() / 2, x.chunks.len() - 1] {
+                let z = rng.hash_with_prefix(x.chunks[j].0[0]);
+                if !chunks.iter().any(|c: &(H, u32)| c.0[0] == z[0]) {
+                    chunks.push((z, 100 + i as u32));
+                    zs.push(z);
+                }
+            }
+            chunks.push((rng.hash(), 7));
+            u_model.xorbs.insert(rng.hash(), XorbRec { chunks, on_disk: 5 });
+        }
+        let u = stage(staging.path(), &u_model);
+        let both = m_union(&s_model, &u_model);
+        for fl in 0..8usize {
+            for u_exported in [false, true] {
+                let pu = if u_exported { export(&u.path, exports.path(), &ZERO, (fl + 3) % 8) } else { u.path.clone() };
+                for ki in [1usize, 2] {
+                    let dir = fresh_dir_with(&[&pu, &exp[&(ki, fl)]]);
+                    let what = format!(
+                        "[C b] directory with an unkeyed shard U{} holding chunks whose hashes share the first u64 with chunks of S (e.g. {} vs {}), and S under key #{ki} ({})",
+                        if u_exported { " (zero-key export)" } else { "" }, hx(&zs[0]), hx(&s_model.xorbs.values().next().unwrap().chunks[0].0), flag_str(fl)
+                    );
+                    let m = mg.open(&what, dir.path());
+                    let kept: BTreeMap<H, FileRec> = if flags_of(fl).0 { s_model.files.clone() } else { BTreeMap::new() };
+                    check_manager(&mg, &what, &m, &both, &kept, &neg, None, &neg);
+                    // and the answers for S's chunks equal the original's
+                    for q in queries_for(&s_model, &[1, 2, 3, 4]) {
+                        let (a, o) = (mg.query(&what, &m, &q), mg.query("[C b] original", &orig_mgr, &q));
+                        if a != o {
+                            witness(format!("{what}: query of {} unkeyed hashes starting with {}: answered {:?}, the manager over the original S answers {:?}", q.len(), hx(&q[0]), a.map(|a| (a.0, hx(&hh(&a.1.cas_hash)), a.1.chunk_index_start)), o.map(|a| (a.0, hx(&hh(&a.1.cas_hash)), a.1.chunk_index_start))));
+                        }
+                    }
+                }
+            }
+        }
+    }
+    // ---- a shard with duplicate chunk hashes and prefix collisions inside: truthfulness only (location may legitimately differ)
+    {
+        let pool2 = gen_pool(&mut rng, 3, 6, false);
+        let dm = Model { files: BTreeMap::new(), xorbs: pool2.xorbs.iter().cloned().collect() };
+        let d = stage(staging.path(), &dm);
+        for fl in [0usize, 3, 4, 7] {
+            let p = export(&d.path, exports.path(), &keys[1], fl);
+            let bytes = infra("read", std::fs::read(&p));
+            let (f, c, k) = flags_of(fl);
+            if let Err(e) = check_shard_bytes(&bytes, &dm, Expect { key: keys[1], files: f, cas_lookup: c, chunk_lookup: k }, &neg) {
+                witness(format!("[C] shard with duplicate/colliding chunks {} re-exported under a key, {}: {e}", dm.describe(), flag_str(fl)));
+            }
+            let dir = fresh_dir_with(&[&p]);
+            let what = format!("[C] shard with duplicate chunks {} under a key, {}", dm.describe(), flag_str(fl));
+            let m = mg.open(&what, dir.path());
+            check_manager(&mg, &what, &m, &dm, &BTreeMap::new(), &neg, None, &neg);
+        }
+    }
+}
+
+// ---------------------------------------------------------------------------------------------------------------------
+// D. expiry (C18 last sentence): no sleeping - the footer's expiry field is rewritten and the file renamed to its new hash
+// ---------------------------------------------------------------------------------------------------------------------
+fn section_d(seed: u64) {
+    let mut rng = Rng(seed ^ 0xD);
+    let pool = gen_pool(&mut rng, 4, 3, true);
+    let model = Model { files: pool.files.iter().cloned().collect(), xorbs: pool.xorbs.iter().cloned().collect() };
+    let bytes = to_bytes(&model);
+    let now = SystemTime::now().duration_since(SystemTime::UNIX_EPOCH).unwrap().as_secs();
+    // (expiry relative to now, grace period, expected loaded, expected deleted by clean_expired_shards(grace))
+    let cases: [(i64, u64, bool, bool); 6] = [(100_000, 0, true, false), (-1000, 5000, false, false), (-1000, 500, false, true), (-1000, 0, false, true), (-100_000, 200_000, false, false), (100_000, 1_000, true, false)];
+    for (rel, grace, want_loaded, want_deleted) in cases {
+        let dir = infra("tempdir", tempfile::tempdir());
+        let mut info = must("load", || MDBShardInfo::load_from_reader(&mut Cursor::new(&bytes)));
+        info.metadata.shard_key_expiry = (now as i64 + rel) as u64;
+        let mut b = bytes[..info.metadata.footer_offset as usize].to_vec();
+        must("MDBShardFileFooter::serialize", || info.metadata.serialize(&mut b));
+        let path = dir.path().join(shard_file_name(&compute_data_hash(&b)));
+        infra("write", std::fs::write(&path, &b));
+        let what = format!("[D] shard whose expiry is now{rel:+} s");
+        let loaded = must(&format!("{what}: MDBShardFile::load_all_valid"), || MDBShardFile::load_all_valid(dir.path()));
+        if (loaded.len() == 1) != want_loaded || loaded.len() > 1 {
+            witness(format!("{what}: load_all_valid returned {} shards, expected {}", loaded.len(), want_loaded as usize));
+        }
+        must(&format!("{what}: clean_expired_shards"), || MDBShardFile::clean_expired_shards(dir.path(), grace));
+        if path.exists() == want_deleted {
+            witness(format!("{what}: after clean_expired_shards(grace {grace} s) the file {}, expected {}", if path.exists() { "still exists" } else { "was deleted" }, if want_deleted { "deleted" } else { "kept" }));
+        }
+    }
+}
+
+// ---------------------------------------------------------------------------------------------------------------------
+// E. (only with C10_ONLY=E) probe outside the generated input space: a file segment with non-zero cas_flags, exported without
+//    file info.  The export skips dropped file records entry by entry by re-reading each 48-byte entry as a header.
+// ---------------------------------------------------------------------------------------------------------------------
+fn section_e(seed: u64) {
+    let mut rng = Rng(seed ^ 0xE);
+    let pool = gen_pool(&mut rng, 3, 3, true);
+    let model = Model { files: pool.files.iter().map(|(h, f)| (*h, variant(f, 0))).collect(), xorbs: pool.xorbs.iter().cloned().collect() };
+    let mut mem = to_mem(&model);
+    let fh = *model.files.iter().find(|f| !f.1.segs.is_empty()).unwrap().0;
+    mem.file_content.get_mut(&mh(&fh)).unwrap().segments[0].cas_flags = 1 << 31;
+    let dir = infra("tempdir", tempfile::tempdir());
+    let path = must("[E] write_to_directory", || mem.write_to_directory(dir.path()));
+    let out = infra("tempdir", tempfile::tempdir());
+    let key = rng.hash();
+    let p = export(&path, out.path(), &key, 6);
+    let bytes = infra("read", std::fs::read(&p));
+    if let Err(e) = check_shard_bytes(&bytes, &model, Expect { key, files: false, cas_lookup: true, chunk_lookup: true }, &[]) {
+        witness(format!("[E] shard with a file segment whose cas_flags = 0x80000000, exported without file info: {e}"));
+    }
+}
+
+fn main() {
+    let seed: u64 = std::env::var("VERIF_SEED").ok().and_then(|s| s.parse().ok()).unwrap_or(0);
+    let only = std::env::var("C10_ONLY").unwrap_or_default().to_uppercase();
+    let sel = |s: &str| only.is_empty() || only.contains(s);
+    // panics of the code under test are caught and reported; keep their default message out of stdout (stderr is logged)
+    if sel("A") {
+        section_a(seed);
+    }
+    if sel("B") {
+        section_b(seed);
+    }
+    if sel("C") {
+        section_c(seed);
+    }
+    if sel("D") {
+        section_d(seed);
+    }
+    if only.contains('E') {
+        section_e(seed);
+    }
+    println!("no violation found");
+}
